@@ -40,6 +40,11 @@ def gen_cases(tier, seed):
             # an existing dataset with many part files (part numbers of two digits and more; with partitions several per directory)
             cases[-1]["init_rows"] = int(rng.integers(24, 60))
             cases[-1]["init_rgo"] = int(rng.integers(1, 3))
+        elif i % 8 == 2:
+            # part numbers with a hole below the maximum: an early row group was removed (files keep their names)
+            cases[-1]["init_rows"] = int(rng.integers(12, 30))
+            cases[-1]["init_rgo"] = int(rng.integers(2, 5))
+            cases[-1]["init_remove"] = [0] if i % 16 == 2 else [0, 2]
         elif i % 8 == 6:
             cases[-1]["init_appends"] = int(rng.integers(1, 4))     # the existing dataset is itself the result of earlier appends
     return cases
@@ -110,6 +115,12 @@ def run_case(case):
         fastparquet.write(tmpl, df0, **kw)
         for j in range(case.get("init_appends", 0)):
             fastparquet.write(tmpl, _frame(rng0, 1000 * (j + 1), int(rng0.integers(3, 12)), case["nparts"]), append=True, **kw)
+        if case.get("init_remove"):
+            pf0 = fastparquet.ParquetFile(tmpl)
+            doomed = [pf0.row_groups[j] for j in case["init_remove"] if j < len(pf0.row_groups) - 1]
+            if doomed:
+                pf0.remove_row_groups(doomed)
+                counters["scenarios_with_removed_row_groups"] = 1
         old = _rids(tmpl)
         rng = np.random.default_rng([case["seed"], 2])
         new = _frame(rng, 10 ** 6, case["new_rows"], case["nparts"], case["new_partitions"])
@@ -123,10 +134,13 @@ def run_case(case):
             _append(work, new, case, seam)
         K = seam.n
         k_meta = next((i for i, kind, p in seam.calls if kind == "open_w" and os.path.basename(p) in ("_metadata", "_common_metadata")), K + 1)
-        full = _rids(work)
         exp_new_rids = sorted(old["rid"].tolist() + new["rid"].tolist())
-        if sorted(full["rid"].tolist()) != exp_new_rids:
-            res["failures"].append({"kind": "fault_free_append_wrong", "expected": len(exp_new_rids), "got": len(full)})
+        try:
+            full = _rids(work)
+            if sorted(full["rid"].tolist()) != exp_new_rids:
+                res["failures"].append({"kind": "fault_free_append_wrong", "expected": len(exp_new_rids), "got": len(full)})
+        except Exception as e:
+            res["failures"].append({"kind": "dataset_unreadable_after_fault_free_append", **C.exc_shape(e)})
         seam_w = {os.path.abspath(p) for i, kind, p in seam.calls if kind == "open_w"}
         for ev in aud.events:
             if ev[0] == "open" and fsmon.is_write_mode(ev[2]) and os.path.abspath(ev[1]) not in seam_w:
@@ -236,7 +250,7 @@ def coverage_extra(agg):
 
 def required(tier):
     return {"faults_fired_raise": 300, "content_checks": 200, "faults_fired_kill": 30, "fired:open_w": 20, "fired:write": 100, "fired:close": 20,
-            "fired:mkdirs": 1, "scenarios_with_ge_11_existing_parts": 3}
+            "fired:mkdirs": 1, "scenarios_with_ge_11_existing_parts": 3, "scenarios_with_removed_row_groups": 2}
 
 
 if __name__ == "__main__":
